@@ -216,6 +216,15 @@ def macrobody(rng, kinds=None, irregular=None):
             return 'rec', [c(), c(), c()] + h + a + [rng.choice([0.5, 1.0, 2.0])]
         return 'rec', [c(), c(), c()] + h + a + scale(b, rng.choice([0.5, 1.0]))
     if k == 'trc':
+        if rng.random() < 0.15:
+            # a slender cone (collimator, beam pipe, tapered pin): metres long, radii that differ by centimetres — the
+            # half-aperture is below 1e-3 although the radii differ a lot (probe points: `trc_probe_points`)
+            ln = rng.choice([300.0, 1000.0, 2500.0])
+            r1 = rng.choice([2.0, 3.0, 6.0])
+            r2 = r1 + rng.choice([1, -1]) * ln * rng.choice([0.0003, 0.0006, 0.0009])
+            if r2 <= 0.2:
+                r2 = r1 + ln * 0.0006
+            return 'trc', [c(), c(), c()] + scale(axis_vec(rng), ln) + [r1, r2]
         h = scale(axis_vec(rng), rng.choice([1., 2.]))
         r1, r2 = rng.sample([0.5, 1.0, 2.0, 3.0], 2)
         return 'trc', [c(), c(), c()] + h + [r1, r2]
@@ -252,6 +261,27 @@ def macrobody(rng, kinds=None, irregular=None):
         facets = [123., 456., 1254., 2365., 1364., 0.]
         return 'arb', [x for p in v for x in p] + facets
     raise ValueError(k)
+
+
+def trc_probe_points(ps, rng, n=60):
+    """points around the lateral surface of a TRC all along its length (between the cylinder of the base radius and the
+    cone, just inside and just outside the cone, beyond the two end planes)"""
+    b, hv, r1, r2 = ps[0:3], ps[3:6], ps[6], ps[7]
+    ln = math.sqrt(dot(hv, hv))
+    u = [x / ln for x in hv]
+    t0 = [1.0, 0.0, 0.0] if abs(u[0]) < 0.9 else [0.0, 1.0, 0.0]
+    e1 = cross(u, t0)
+    n1 = math.sqrt(dot(e1, e1))
+    e1 = [x / n1 for x in e1]
+    e2 = cross(u, e1)
+    out = []
+    for _ in range(n):
+        t = rng.choice([0.15, 0.4, 0.6, 0.85, 0.97, -0.02, 1.02])
+        rc = r1 + (r2 - r1) * t
+        rad = rc + (r1 - rc) * rng.choice([0.5, 0.5, -0.4, 1.4]) if rng.random() < 0.6 else rc * rng.choice([0.3, 0.9, 1.1, 2.0])
+        ph = rng.uniform(0, 2 * math.pi)
+        out.append([b[i] + t * hv[i] + rad * (math.cos(ph) * e1[i] + math.sin(ph) * e2[i]) for i in range(3)])
+    return out
 
 
 MACRO_NFACETS = {'rpp': 6, 'box': 6, 'sph': 1, 'rcc': 3, 'rhp': 8, 'hex': 8, 'rec': 3, 'trc': 3, 'ell': 1, 'wed': 5}
